@@ -82,6 +82,11 @@ var c04Fixed = []string{
 	"catch(catch(throw(error(my_error, _)), error(my_error, mine), w(inner)), _, w(outer))", "catch(throw(error(e, _)), error(e, C), (var(C) -> w(free) ; w(bound(C))))",
 	"catch(catch(throw(error(my_error, _)), error(my_error, throw/1), w(inner)), _, w(outer))", "catch(throw(error(e, C0)), error(e, C), true), w(C0-C)", "X = f(_), catch(throw(error(X, _)), error(f(a), ctx), w(X))",
 	"catch(catch(throw(error(e1, _)), error(e1, c1), throw(error(e2, _))), error(e2, c2), w(got))", "catch(h7, error(my_error, mine), w(inner))",
+	// call_nth/2 with a bound count commits to the N-th solution of ITS goal only: the catch/3 calls and choice points around it stay
+	// (the reference knows call_nth/2 for finite goals without side effects: findall + nth)
+	"catch((call_nth(m(X), 2), throw(after(X))), after(Y), w(Y))", "catch((m(Z), call_nth(m(X), 2), Z > 1, throw(t(Z, X))), t(A, B), w(A-B))",
+	"catch(catch((call_nth(m(X), 1), throw(in(X))), nomatch, w(no)), in(V), w(outer(V)))", "m(Z), call_nth(m(X), 2), w(Z-X)", "catch((call_nth(m(X), N), N >= 2, throw(at(N, X))), at(A, B), w(A-B))",
+	"catch((call_nth(m(X), 3), atom_length(X, foo)), error(E, _), w(E))", "findall(X, (m(Z), call_nth(m(X), 2)), L), w(L)",
 	// an all-solutions call abandoned by a ball that is caught INSIDE the goal of an outer all-solutions call, which goes on collecting
 	"findall(X, (m(X), catch(findall(Y, (n(Y), X > 1, throw(bad(X, Y))), _), bad(_, _), true)), L), w(L)",
 	"findall(X-L1, (m(X), catch(findall(Y, (m(Y), (Y > X -> throw(big(Y)) ; true)), L1), big(B), L1 = caught(B))), L), w(L)",
